@@ -4,9 +4,12 @@
 //! Verification hooks, compiled only with the cargo feature `verif`.
 //!
 //! Nothing in this module changes the behaviour of [`Sodg`]: the snapshot
-//! is a read-only copy of the internal state in plain types.
+//! is a read-only copy of the internal state in plain types, and the choice
+//! point only permutes a batch of a work-list when an external verification
+//! harness has installed a chooser for the current thread.
 
 use crate::{Hex, Label, Persistence, Sodg};
+use std::cell::RefCell;
 
 /// A plain copy of one vertex slot.
 #[derive(Clone, Debug, PartialEq, Eq, Hash)]
@@ -80,4 +83,55 @@ impl<const N: usize> Sodg<N> {
             next_v: self.next_v,
         }
     }
+}
+
+/// A script of choices for the choice points of the current thread.
+#[derive(Clone, Debug, Default)]
+pub struct Choices {
+    /// The choices to take, in order; when exhausted, 0 is taken.
+    pub preset: Vec<usize>,
+    /// The choices actually taken so far, as (choice, arity) pairs.
+    pub taken: Vec<(usize, usize)>,
+}
+
+thread_local! {
+    static CHOICES: RefCell<Option<Choices>> = const { RefCell::new(None) };
+}
+
+/// Install a script of choices for the current thread.
+pub fn install_choices(preset: Vec<usize>) {
+    CHOICES.with(|c| {
+        *c.borrow_mut() = Some(Choices {
+            preset,
+            taken: vec![],
+        });
+    });
+}
+
+/// Remove the script of choices of the current thread, returning it.
+#[must_use]
+pub fn remove_choices() -> Option<Choices> {
+    CHOICES.with(|c| c.borrow_mut().take())
+}
+
+/// Permute a batch of a work-list the way the installed script says; without
+/// a script the batch is left as it is.
+pub(crate) fn permuted(mut batch: Vec<usize>) -> Vec<usize> {
+    CHOICES.with(|c| {
+        if let Some(ch) = c.borrow_mut().as_mut() {
+            batch.sort_unstable();
+            for i in 0..batch.len() {
+                let arity = batch.len() - i;
+                let pick = if arity > 1 {
+                    let p = ch.preset.get(ch.taken.len()).copied().unwrap_or(0) % arity;
+                    ch.taken.push((p, arity));
+                    p
+                } else {
+                    0
+                };
+                batch.swap(i, i + pick);
+            }
+        }
+    });
+    batch
 }
